@@ -397,3 +397,21 @@ func TmpDir(prefix string) string {
 	}
 	return d
 }
+
+// Within runs fn on its own goroutine and reports whether it returned within
+// d. It is a hang detector, not a performance oracle: callers pass a limit
+// several orders of magnitude above the normal duration of fn. When it
+// reports false the goroutine is still blocked inside fn and is abandoned.
+func Within(d time.Duration, fn func()) bool {
+	done := make(chan struct{})
+	go func() {
+		defer close(done)
+		fn()
+	}()
+	select {
+	case <-done:
+		return true
+	case <-time.After(d):
+		return false
+	}
+}
